@@ -150,6 +150,10 @@ func runC10(c *Ctx) {
 		{c10Date("2020"), c10Date("2020-01"), c10Date("2020"), c10Date("2020-01-15"), c10Date("2020-01")},
 		{c10Qty("5", "mg"), c10Qty("7", "kg"), c10Qty("5", "mg"), c10Qty("5", "kg"), c10Qty("5.0", "mg")},
 		{c10DT("2020-01-01T10"), c10DT("2020-01-01T10:00"), c10DT("2020-01-01T10"), c10DT("2020-01-01T10:00:00Z")},
+		// a Date and the DateTime it is implicitly converted to are equal under `=`: one class for distinct / intersect / exclude
+		{c10Date("2020-01-01"), c10DT("2020-01-01T"), c10Date("2020-01-02"), c10DT("2020-01-01T")},
+		{c10DT("2020T"), c10Date("2020"), c10DT("2020-03T"), c10Date("2020-03"), c10Date("2021")},
+		{fhir.MustParseDate("2020-01-01"), fhir.MustParseDateTime("2020-01-01"), c10Date("2020-01-01"), fhir.MustParseDateTime("2020-01-02")},
 		// the same value as a FHIR element first and as a System value later, and the other way round
 		{fhir.String("a"), system.String("a"), &dtpb.Code{Value: "a"}, system.String("b"), &dtpb.Uri{Value: "b"}, system.String("a")},
 		{fhir.Integer(1), system.Integer(1), fhir.Boolean(true), system.Boolean(true), mustElementDecimal("1.0"), system.Decimal(mustDec("1.0"))},
